@@ -19,8 +19,10 @@
 //   - empty update list => package.json bytes identical, pom.xml token trees equal.
 //
 // DON'T-CARE CELLS (every behaviour accepted):
-//   - Write returning a non-nil error (the property only forbids *silent* non-application);
-//     errors are counted in the evidence (write_errors_accepted).
+//   - Write returning a non-nil error is accepted only when the update list contains a stale update
+//     (VersionFrom differs from the file: it MUST be rejected or applied) or an update of a package that
+//     is not in the file. A list of valid updates (VersionFrom = what Read reported) must be applied:
+//     an error is npm:valid-update-rejected / pom:valid-update-rejected.
 //   - package.json: how the new version string is JSON-escaped inside its literal
 //     (only the decoded value is compared).
 //   - package.json: a key that also occurs in a lower-precedence section
@@ -271,7 +273,7 @@ func recordSamples(r *ev.Run, npmDocs []*npmDoc, pomDocs []*pomDoc) {
 		case len(o.discs) > 0:
 			return "discrepancy"
 		case o.writeErr != "":
-			return "Write returned an error (accepted)"
+			return "Write returned an error"
 		}
 		return "output = input with exactly the requested requirement substituted; re-read agrees"
 	}
@@ -450,7 +452,7 @@ func main() {
 	famCount.Range(func(k, v any) bool { fams[k.(string)] = v.(*atomic.Int64).Load(); return true })
 	r.Set("cases_per_family", fams)
 	r.Set("write_error_examples", append([]string{}, errEx...))
-	r.Assume("a Write that returns a non-nil error is accepted (the property forbids only silent non-application)")
+	r.Assume("a Write error is accepted only for update lists that contain a stale update or an update of an absent package")
 	r.Assume("updates address the first declaration of a groupId:artifactId:type:classifier; updates never target the <parent> reference")
 	r.Assume("Maven registry is never contacted: only local parents are generated")
 	cleanup()
@@ -476,7 +478,7 @@ func replayCode(p string) (code int) {
 	fmt.Printf("replaying %s case, recorded key %s\n  updates %s\n", f.Replay.Kind, f.Key, fmtUpdates(f.Replay.Updates))
 	o := runCase(&f.Replay)
 	if o.writeErr != "" {
-		fmt.Printf("  Write returned error (accepted): %s\n", o.writeErr)
+		fmt.Printf("  Write returned error: %s\n", o.writeErr)
 	}
 	if len(o.discs) == 0 {
 		fmt.Println("  no discrepancy observed: property holds on this case")
